@@ -2,7 +2,7 @@
    One theorem per reference operator: the set denoted by the reference result is the documented set.
    [fresh n s]: the system does not mention coordinate n (n = space dimension: used as scratch). *)
 From Coq Require Import List ZArith QArith.
-Require Import PPLV.Base.FM PPLV.Base.Sys PPLV.Base.Gens PPLV.Poly.PolyOps PPLV.Poly.GensLeast PPLV.Poly.PolyGenOps PPLV.Poly.PolyOpsLhs PPLV.Poly.PosTimeElapse.
+Require Import PPLV.Base.FM PPLV.Base.Sys PPLV.Base.Gens PPLV.Poly.PolyOps PPLV.Poly.GensLeast PPLV.Poly.PolyGenOps PPLV.Poly.PolyOpsLhs PPLV.Poly.PosTimeElapse PPLV.Poly.PolyDiff.
 Import ListNotations.
 Local Open Scope Q_scope.
 
@@ -163,6 +163,35 @@ Theorem C02_positive_time_elapse : forall n sP sQ x, wf_sys_dim n sP -> wf_sys_d
   (sat_sys (pos_time_elapse n sP sQ) x <->
    exists p q t, 0 < t /\ sat_sys sP p /\ sat_sys sQ q /\ forall i, (i < n)%nat -> x i == p i + t * q i).
 Proof. exact pos_time_elapse_spec. Qed.
+
+(* poly_difference_assign / difference_assign: the set difference is the union of the pieces x /\ not c (c a
+   constraint of y); the concatenation of generator systems of the non-empty pieces generates a set that contains
+   the difference and is contained in every polyhedron containing it (NNC); its relaxation is the smallest
+   closed polyhedron containing the difference (C) *)
+Theorem C02_difference_pieces : forall x y p,
+  (sat_sys x p /\ ~ sat_sys y p) <-> exists s, In s (diff_pieces x y) /\ sat_sys s p.
+Proof. exact diff_pieces_exact. Qed.
+Theorem C02_difference_contains : forall n x y Gs p,
+  (forall s, In s (diff_pieces x y) -> (exists q, sat_sys s q) -> exists G, In G Gs /\ represents n G s) ->
+  sat_sys x p -> ~ sat_sys y p -> in_gens n (concat Gs) p.
+Proof. exact difference_contains. Qed.
+Theorem C02_difference_least : forall n x y Gs (t : sys),
+  hints_ok n x y Gs -> wf_sys_dim n t ->
+  (forall p, sat_sys x p -> ~ sat_sys y p -> sat_sys t p) ->
+  forall p, in_gens n (concat Gs) p -> sat_sys t p.
+Proof. exact difference_least. Qed.
+Theorem C02_difference_closed_contains : forall n x y Gs p,
+  (forall s, In s (diff_pieces x y) -> (exists q, sat_sys s q) -> exists G, In G Gs /\ represents n G s) ->
+  sat_sys x p -> ~ sat_sys y p -> sat_sys (relax (cons_of_gens n (concat Gs))) p.
+Proof. exact difference_closed_contains. Qed.
+Theorem C02_difference_closed_least : forall n x y Gs (t : sys),
+  hints_ok n x y Gs -> Gs <> [] -> wf_sys_dim n t -> closed_ineqs t ->
+  (forall p, sat_sys x p -> ~ sat_sys y p -> sat_sys t p) ->
+  forall p, sat_sys (relax (cons_of_gens n (concat Gs))) p -> sat_sys t p.
+Proof. exact difference_closed_least. Qed.
+Theorem C02_difference_empty : forall x y,
+  (forall s, In s (diff_pieces x y) -> ~ exists q, sat_sys s q) -> forall p, sat_sys x p -> sat_sys y p.
+Proof. exact difference_empty. Qed.
 
 (* poly_hull_assign_if_exact: with h the hull, the Boolean is true exactly when the union is already convex *)
 Theorem C02_hull_if_exact_flag : forall n h p q b,
